@@ -22,6 +22,10 @@ package sender
 //@ site call Marshal assert [C19 C01 C20 C08] ismap(v) && has_key(dyn(v), "type")
 //@ site call Marshal assert [C19 C01 C20 C08] sqe.Submission.Sender.Task.Mesg.Type == message.Notify ==> ismap(v) && has_key(dyn(v), "promise") && dyn(dyn(v)["promise"]) == sqe.Submission.Sender.Promise
 //@ site call Marshal assert [C19 C01 C20 C08] sqe.Submission.Sender.Task.Mesg.Type != message.Notify ==> ismap(v) && has_key(dyn(v), "task") && dyn(dyn(v)["task"]) == sqe.Submission.Sender.Task && has_key(dyn(v), "href")
+// the three links are the submission's own, each under its own name (a worker that follows them renews its lease
+// through heartbeat and finishes through complete), and the type entry is the message type
+//@ site call Marshal assert [C19 C07 C08 C20] sqe.Submission.Sender.Task.Mesg.Type != message.Notify ==> dyn(dyn(v)["href"])["claim"] == sqe.Submission.Sender.ClaimHref && dyn(dyn(v)["href"])["complete"] == sqe.Submission.Sender.CompleteHref && dyn(dyn(v)["href"])["heartbeat"] == sqe.Submission.Sender.HeartbeatHref
+//@ site call Marshal assert [C19 C07 C08 C20] dyn(dyn(v)["type"]) == sqe.Submission.Sender.Task.Mesg.Type
 //@ site call Enqueue assert recv != nil && arg0 != nil && arg0.Type == sqe.Submission.Sender.Task.Mesg.Type && arg0.Data == recv.Data && arg0.Done != nil
 //@ site call Enqueue assert has_key(w.plugins, recv.Type) && self == w.plugins[recv.Type]
 //@ site call Enqueue assert logicalRecv != nil && has_key(w.targets, *logicalRecv) && w.targets[*logicalRecv] != nil ==> recv == w.targets[*logicalRecv]
